@@ -232,6 +232,9 @@ def gen_grid(rng, it):
     if it % 6 == 5:
         v = v[[1, 2, 0]] * np.array([[1.0], [-1.0], [1.0]])       # permuted, left-handed, still dyadic
     origin = [rng.randint(-8, 8) / q for _ in range(3)]
+    if it % 7 == 6 and it % 5 not in (3, 4):
+        # a cell far from the coordinate origin (still exact: 2^30 + small multiples of 1/8 fit in a double)
+        origin = [o + rng.choice([-1, 1]) * float(2 ** rng.choice([10, 20, 30])) * rng.randint(1, 3) for o in origin]
     pbc = ALL_PBC[(it // 2) % 8]
     cutoff = rng.choice([0.5, 0.75, 1.0, 1.25, 1.5, 1.75, 2.0, 2.5, 3.0, 3.75])
     w = min(_widths(v))
@@ -651,7 +654,8 @@ def gen_fine(rng, it):
             cp = rng.sample(range(3), 3)
             V = [[row[k] for k in cp] for row in V]
     o = [rng.randrange(-2 * C, 2 * C) for _ in range(3)]
-    pbc = list(ALL_PBC[(it // 3) % 8]) if it % 4 == 0 else [True, True, True]
+    # (it // 4) % 8 with it % 4 == 0 runs through all 8 settings; (it // 3) % 8 never gave (T,F,F) / (F,F,F) there
+    pbc = list(ALL_PBC[(it // 4) % 8]) if it % 4 == 0 else [True, True, True]
 
     def inside_point():
         rel = [rng.choice([rng.random(), rng.random(), rng.random(), 0.0]) for _ in range(3)]
@@ -792,6 +796,270 @@ def gen_narrowbin(rng, it):
     return _case(np.diag(L), origin, pts, ALL_PBC[it % 8], c, 'float', rng.randint(1, 4), rng.randint(1, 3))
 
 
+# ----------------------------------------------------------------------------------------
+# extreme cutoff / cell ratios, in both directions
+# ----------------------------------------------------------------------------------------
+def _cell_measures(v, origin=None):
+    """every length by which the "size" of a cell is commonly measured: edges, face diagonals, the four body
+    diagonals, the Frobenius norm of the vector matrix, the sum of the edges, the perpendicular widths, the extents and
+    the diagonal of the Cartesian bounding box."""
+    np = _np()
+    v = np.asarray(v, dtype=float)
+    out = []
+    for x in (-1, 0, 1):
+        for y in (-1, 0, 1):
+            for z in (-1, 0, 1):
+                if (x, y, z) > (0, 0, 0):
+                    out.append(float(np.linalg.norm(x * v[0] + y * v[1] + z * v[2])))
+    out.append(float(np.linalg.norm(v)))
+    out.append(float(sum(np.linalg.norm(v[k]) for k in range(3))))
+    out.extend(_widths(v))
+    corners = np.array([[x, y, z] for x in (0, 1) for y in (0, 1) for z in (0, 1)], dtype=float) @ v
+    ext = corners.max(axis=0) - corners.min(axis=0)
+    out.extend(float(e) for e in ext)
+    out.append(float(np.linalg.norm(ext)))
+    return sorted(set(out))
+
+
+def _pair_spectrum(v, pos, pbc):
+    """sorted 27-candidate distances of all pairs (floats; only used to aim a cutoff between two of them)."""
+    np = _np()
+    P = np.asarray(pos, dtype=float).reshape(-1, 3)
+    V = np.asarray(v, dtype=float)
+    d0 = P[None, :, :] - P[:, None, :]
+    best = None
+    for x in ((-1, 0, 1) if pbc[0] else (0,)):
+        for y in ((-1, 0, 1) if pbc[1] else (0,)):
+            for z in ((-1, 0, 1) if pbc[2] else (0,)):
+                d = d0 + (x * V[0] + y * V[1] + z * V[2])
+                m = (d * d).sum(axis=-1)
+                best = m if best is None else np.minimum(best, m)
+    iu = np.triu_indices(len(P), 1)
+    return sorted(float(math.sqrt(x)) for x in best[iu])
+
+
+def gen_bigcut(rng, it):
+    """cutoff >> cell.  Cells of every shape (orthogonal, tilted, strongly sheared LAMMPS form with tilt factors up to
+    1.5 edges, non-reduced, rotated / left-handed; every 4th case on a dyadic grid: decided exactly), all 8 pbc
+    settings, 2-9 atoms on the corners of the cell (opposite ends of every body diagonal), a hair inside them, at the
+    centre, at random; the cutoff is (a) uniform between two neighbouring "cell measures" (edges, face and body
+    diagonals, Frobenius norm, sum of edges, widths, bounding-box extents and diagonal: whatever a shortcut "the cutoff
+    spans the whole cell" might compare with), (b) 1-3 times the longest body diagonal, or (c) aimed between two
+    neighbouring values of the system's own pair-distance spectrum (so that the farthest pairs are decided both ways).
+    The superbox is then a few bins wide and every bin holds many images."""
+    np = _np()
+    grid = it % 4 == 3
+    q = 4
+    kind = (it // 4) % 5
+    pbc = ALL_PBC[(it // 20) % 8]                 # mixed radix: grid x kind x pbc all combined (period 160)
+    if grid:
+        L = [rng.randint(4, 16) / q for _ in range(3)]
+    else:
+        L = [rng.uniform(1.0, 5.0) for _ in range(3)]
+        if rng.random() < 0.3:
+            L[rng.randrange(3)] *= rng.choice([0.3, 2.5])
+    v = np.diag(L)
+    if kind in (1, 2, 3, 4):
+        f = 0.5 if kind == 1 else 1.5
+        t = lambda length: (round(rng.uniform(-f, f) * length * q) / q) if grid else rng.uniform(-f, f) * length  # noqa
+        v[1, 0] = t(L[0])
+        v[2, 0] = t(L[0]) if rng.random() < 0.8 else 0.0
+        v[2, 1] = t(L[1]) if rng.random() < 0.8 else 0.0
+    if kind == 3:
+        perm = rng.sample(range(3), 3)
+        v = v[perm]
+        if rng.random() < 0.5:
+            v[rng.randrange(3)] *= -1.0
+    if kind == 4 and not grid:
+        m = np.array([[rng.gauss(0, 1) for _ in range(3)] for _ in range(3)])
+        qq, _ = np.linalg.qr(m)
+        v = v @ qq
+    origin = [rng.randint(-8, 8) / q for _ in range(3)] if grid else [rng.uniform(-4, 4) for _ in range(3)]
+    nper = sum(1 for p in pbc if p)
+    n = rng.randint(2, 9 if nper < 3 else 6)
+    h = rng.choice([1e-7, 1e-5, 1e-4])
+    rel = []
+    corner = [rng.choice([0.0, 1.0]) for _ in range(3)]
+    if rng.random() < 0.5:
+        # the ends of the LONGEST body diagonal
+        best = max(((x, y, z) for x in (0, 1) for y in (0, 1) for z in (0, 1)),
+                   key=lambda s: float(np.linalg.norm((2 * s[0] - 1) * v[0] + (2 * s[1] - 1) * v[1] + (2 * s[2] - 1) * v[2])))
+        corner = [float(x) for x in best]
+    rel.append(corner)
+    rel.append([1.0 - x for x in corner])                      # the opposite end of one body diagonal
+    while len(rel) < n:
+        k = rng.random()
+        if grid:
+            rel.append([rng.choice([0.0, 1.0, 0.5, rng.randint(0, 8) / 8]) for _ in range(3)])
+        elif k < 0.4:
+            rel.append([rng.choice([0.0, 1.0]) for _ in range(3)])
+        elif k < 0.6:
+            rel.append([rng.choice([h, 1.0 - h, 0.0, 1.0]) for _ in range(3)])
+        elif k < 0.75:
+            rel.append([0.5 + rng.uniform(-0.05, 0.05) for _ in range(3)])
+        else:
+            rel.append([rng.random() for _ in range(3)])
+    rng.shuffle(rel)
+    pos = np.array(rel) @ v + np.array(origin)
+    mode = rng.choice(['measure', 'measure', 'diag', 'spectrum', 'spectrum', 'farthest', 'farthest'])
+    ms = _cell_measures(v)
+    diag = max(float(np.linalg.norm(x * v[0] + y * v[1] + z * v[2])) for x in (-1, 1) for y in (-1, 1) for z in (1,))
+    if mode == 'measure':
+        k = rng.randrange(len(ms))
+        lo, hi = ms[k], (ms[k + 1] if k + 1 < len(ms) else ms[k] * 1.5)
+        cutoff = lo + rng.choice([rng.random(), 0.02, 0.98]) * (hi - lo)
+    elif mode == 'diag':
+        cutoff = diag * rng.uniform(1.0, 3.0)
+    elif mode == 'farthest':
+        # the farthest pair of the system just outside (or just inside) the cutoff
+        sp = _pair_spectrum(v, pos, pbc)
+        cutoff = (sp[-1] if sp and sp[-1] > 0 else diag) * (1.0 + rng.choice([-1, -1, -1, 1]) * rng.choice([1e-6, 1e-3, 0.02, 0.05]))
+    else:
+        sp = [x for x in _pair_spectrum(v, pos, pbc) if x > 0]
+        if sp:
+            k = rng.choice([len(sp) - 1, len(sp) - 1, rng.randrange(len(sp))])
+            lo, hi = sp[k - 1] if k > 0 else 0.5 * sp[0], sp[k]
+            cutoff = 0.5 * (lo + hi) if hi > lo * (1 + 1e-9) else hi * 1.01
+            if rng.random() < 0.3:
+                cutoff = sp[-1] * rng.uniform(1.001, 1.2)            # everything below the cutoff
+        else:
+            cutoff = diag
+    cutoff = max(cutoff, 0.35 * min(_widths(v)))
+    if grid:
+        cutoff = max(1, round(cutoff * q)) / q
+    return _case(v, origin, pos, pbc, cutoff, 'grid' if grid else 'float', rng.randint(1, 25), rng.randint(1, 25))
+
+
+_POW2_BINS = [256, 512, 1024, 2048, 4096, 8192, 16384, 32768, 65536]
+
+
+def gen_elongated(rng, it, nmin=1030, nmax=5000):
+    """cell >> cutoff along ONE Cartesian axis (x, y, z in turn): `nmin`..`nmax` cutoff-sized bins along it (bin indices
+    far beyond 2^10, 2^11, 2^12), while the other two cell dimensions are 0.4-4 cutoffs (both ratio directions in one
+    system).  The long cell vector lies along the axis, the other vectors may be tilted along it and against each
+    other, rows may be permuted and the long vector may point down the axis; all 8 pbc settings.  2-16 atoms, placed
+    where a bin index matters: in the last bins, in the first bins, in bins 2^m - 2 .. 2^m + 2 for every 2^m below the
+    bin count, at random; in pairs along the axis 0.5-1.2 cutoffs apart (decided both ways), and across the periodic
+    boundary of the long axis."""
+    np = _np()
+    ax = it % 3
+    kind = (it // 3) % 4
+    pbc = ALL_PBC[(it // 12) % 8]                 # mixed radix: axis x kind x pbc (period 96)
+    c = rng.uniform(0.4, 2.5)
+    N = rng.choice([rng.randint(nmin, min(nmax, nmin + 80)), rng.randint(nmin, nmax), rng.randint(nmin, nmax)]
+                   + [rng.randint(p - 12, p + 12) for p in _POW2_BINS if nmin + 12 <= p <= nmax - 12])
+    others = [k for k in range(3) if k != ax]
+    L = [0.0] * 3
+    L[ax] = N * c
+    for k in others:
+        L[k] = rng.choice([rng.uniform(0.4, 1.0), rng.uniform(1.0, 2.0), rng.uniform(2.0, 4.0)]) * c
+    v = np.diag(L)
+    if kind in (1, 3):
+        for k in others:
+            v[k, ax] = rng.uniform(-3.0, 3.0) * c              # short vectors tilted along the long axis
+        a, b = others
+        v[b, a] = rng.uniform(-0.5, 0.5) * L[a]
+    if kind >= 2:
+        if rng.random() < 0.5:
+            v[ax] *= -1.0                                      # long vector pointing down the axis
+        perm = rng.sample(range(3), 3)
+        v = v[perm]
+    origin = [rng.uniform(-5, 5) for _ in range(3)]
+    long_row = [k for k in range(3) if abs(v[k, ax]) > 0.5 * N * c][0]
+    corners = np.array([[x, y, z] for x in (0, 1) for y in (0, 1) for z in (0, 1)], dtype=float) @ v
+    minc = float(corners[:, ax].min())
+    nbins = int((float(corners[:, ax].max()) - minc + 2.02 * c) / c) + 1
+
+    def at_bin(idx, frac):
+        """a point inside the cell whose coordinate along the long axis lies in bin `idx` (fraction `frac` of it)."""
+        for _ in range(30):
+            rel = [rng.random() for _ in range(3)]
+            want = (idx + frac) * c + minc - 1.01 * c
+            rest = sum(rel[k] * v[k, ax] for k in range(3) if k != long_row)
+            rel[long_row] = (want - rest) / v[long_row, ax]
+            if 0.0 <= rel[long_row] <= 1.0:
+                return rel
+        return None
+
+    rel = []
+    n = rng.randint(2, 16)
+    targets = ['last', 'last', 'first', 'pow2', 'pow2', 'random', 'wrap']
+    while len(rel) < n:
+        t = rng.choice(targets)
+        if t == 'last':
+            idx = nbins - 1 - rng.randint(1, 5)
+        elif t == 'first':
+            idx = rng.randint(1, 4)
+        elif t == 'pow2':
+            ps = [p for p in _POW2_BINS if p + 3 < nbins]
+            idx = (rng.choice(ps) + rng.randint(-2, 2)) if ps else rng.randint(1, nbins - 2)
+        elif t == 'wrap':
+            # one atom just below the far face of the long vector, its partner just above the near face
+            e = rng.uniform(0.0, 0.6) * c
+            a = [rng.random() for _ in range(3)]
+            a[long_row] = 1.0 - e / (N * c)
+            b = [min(max(a[k] + rng.uniform(-0.2, 0.2) * c / max(L[others[0]], L[others[1]], c), 0.0), 1.0)
+                 for k in range(3)]
+            b[long_row] = rng.uniform(0.0, 0.6) * c / (N * c)
+            rel.extend([a, b])
+            continue
+        else:
+            idx = rng.randint(1, max(1, nbins - 2))
+        a = at_bin(idx, rng.random())
+        if a is None:
+            continue
+        rel.append(a)
+        if rng.random() < 0.8:
+            # partner 0.5-1.2 cutoffs further along the long vector, small transverse offset
+            b = list(a)
+            b[long_row] = a[long_row] + rng.choice([1, -1]) * rng.uniform(0.5, 1.2) * c / (N * c)
+            for k in range(3):
+                if k != long_row:
+                    b[k] = min(max(a[k] + rng.uniform(-0.15, 0.15), 0.0), 1.0)
+            if 0.0 <= b[long_row] <= 1.0:
+                rel.append(b)
+    rng.shuffle(rel)
+    pos = np.array(rel) @ v + np.array(origin)
+    case = _case(v, origin, pos, pbc, c, 'float', rng.randint(1, 25), rng.randint(1, 25))
+    case['long_axis'] = ax
+    return case
+
+
+def gen_chain(rng, it, natoms=None, nmin=1030, nmax=5000):
+    """a sparse chain of 1100-5000 atoms along the long axis of an elongated cell (one atom every 0.7-1.3 cutoffs,
+    transverse scatter over a cross-section of 1-3 cutoffs: 2-8 neighbors each, every bin along the axis occupied,
+    few atoms per bin), atom order shuffled.  Decided with the sparse oracle."""
+    np = _np()
+    ax = it % 3
+    c = rng.uniform(0.5, 2.0)
+    n = natoms or rng.randint(nmin + 70, nmax)
+    step = rng.uniform(0.7, 1.3)
+    Llong = n * step * c
+    others = [k for k in range(3) if k != ax]
+    L = [0.0] * 3
+    L[ax] = Llong
+    for k in others:
+        L[k] = rng.uniform(1.0, 3.0) * c
+    v = np.diag(L)
+    if it % 2:
+        for k in others:
+            v[k, ax] = rng.uniform(-2.0, 2.0) * c
+    if (it // 2) % 2:
+        v = v[[1, 2, 0]]
+    origin = [rng.uniform(-5, 5) for _ in range(3)]
+    pbc = ALL_PBC[(it // 3) % 8]
+    long_row = [k for k in range(3) if abs(v[k, ax]) > 0.5 * Llong][0]
+    rel = np.array([[rng.random() for _ in range(3)] for _ in range(n)])
+    rel[:, long_row] = (np.arange(n) + np.array([rng.uniform(0.0, 0.9) for _ in range(n)])) / n
+    idx = list(range(n))
+    rng.shuffle(idx)
+    rel = rel[idx]
+    pos = rel @ v + np.array(origin)
+    case = _case(v, origin, pos, pbc, c, 'float', rng.choice([1, 3, 20]), rng.choice([1, 2, 10]))
+    case['long_axis'] = ax
+    return case
+
+
 def load_corpus():
     out = []
     if CORPUS.is_dir():
@@ -816,8 +1084,10 @@ def _system(case):
     if case.get('dtype'):
         # positions stored by Atoms in another dtype (Atoms keeps what it is given); values are exactly representable
         conv = pos.astype(case['dtype'])
-        assert (conv.astype(float) == pos).all()
-        pos = conv
+        if (conv.astype(float) == pos).all():
+            pos = conv
+        else:                       # not representable in that dtype: keep float64 (a generator slip, not an observation)
+            case.pop('dtype')
     atoms = am.Atoms(pos=pos)
     system = am.System(atoms=atoms, box=box, pbc=tuple(case['pbc']))
     # the implementation works on what the objects hold (Box zeroes terms below 1e-9 of its largest one): model and
@@ -829,16 +1099,62 @@ def _system(case):
     return system
 
 
-def _build(case, system, init=None, delta=None, via=0):
+class _ArrNL:
+    """the bare array returned by `nlist(...)` read like a NeighborList (coord = column 0, list = the next coord entries)."""
+    def __init__(self, arr):
+        np = _np()
+        self.nlist = np.asarray(arr)
+        self.coord = self.nlist[:, 0]
+
+    def __len__(self):
+        return self.nlist.shape[0]
+
+    def __getitem__(self, i):
+        return self.nlist[i, 1:1 + int(self.nlist[i, 0])]
+
+
+FORMS = ['as given', 'cutoff as numpy float64 / python int, sizes as numpy int64',
+         'cutoff as float32 / numpy int32 where exact, sizes as numpy int32', 'nlist(system, cutoff, initialsize, deltasize) '
+         'positionally']
+
+
+def _cutoff_form(c, form):
+    np = _np()
+    if form == 1:
+        return int(c) if float(c).is_integer() else np.float64(c)
+    if form == 2:
+        if float(c).is_integer() and abs(c) < 2 ** 31:
+            return np.int32(int(c))
+        return np.float32(c) if float(np.float32(c)) == c else np.float64(c)
+    return c
+
+
+def _build(case, system, init=None, delta=None, via=0, form=0):
+    """`form`: the same VALUES handed over as other python / numpy types (0: python float and ints)."""
+    np = _np()
     import atomman as am
     kw = {}
+    conv = {0: (lambda x: x), 1: np.int64, 2: np.int32, 3: (lambda x: x)}[form]
     if init is not None:
-        kw['initialsize'] = init
+        kw['initialsize'] = conv(init)
     if delta is not None:
-        kw['deltasize'] = delta
+        kw['deltasize'] = conv(delta)
+    cutoff = _cutoff_form(case['cutoff'], form)
+    if form == 3:
+        args = [system, cutoff] + ([kw['initialsize']] if 'initialsize' in kw else []) \
+            + ([kw['deltasize']] if 'initialsize' in kw and 'deltasize' in kw else [])
+        return _ArrNL(am.nlist(*args))
     if via == 0:
-        return am.NeighborList(system=system, cutoff=case['cutoff'], **kw)
-    return system.neighborlist(cutoff=case['cutoff'], **kw)
+        return am.NeighborList(system=system, cutoff=cutoff, **kw)
+    return system.neighborlist(cutoff=cutoff, **kw)
+
+
+def _snapshot(system):
+    """bitwise state of everything the call is handed: positions (with dtype), cell vectors, origin, pbc."""
+    np = _np()
+    pos = np.asarray(system.atoms.pos)
+    return (pos.dtype.str, pos.shape, pos.tobytes(), np.asarray(system.box.vects).tobytes(),
+            np.asarray(system.box.origin).tobytes(), tuple(bool(x) for x in system.pbc))
 
 
 def _rows(nl):
@@ -1074,9 +1390,58 @@ def _true_nearest_report(ctx, case, rows):
                     ctx.extra['beyond_27_listed'] = ctx.extra.get('beyond_27_listed', 0) + 1
 
 
-def clauses(case, rows, coord, cls=None):
-    """the property's clauses on one result; returns [(key, text)]."""
+def exact_neighbors_sparse(case):
+    """(pairs below the cutoff, pairs inside the tie band), each a set of (i, j), i < j — the same classification as
+    `exact_classes`, for systems with many atoms and few neighbors each (chains, lattices), in O(n) instead of O(n^2).
+    Candidates: a dictionary keyed by floor(coordinate / (1.000001 cutoff)) holds every atom and every one of its (up
+    to 26) images; a pair whose 27-candidate distance is below cutoff (1 + 1e-7) has an image of j in one of the 27
+    dictionary cells around the real atom i (every component of the separation is shorter than the cell edge; the
+    float floor is off by at most 1e-12 cutoffs for the coordinate ranges this is used for).  Every candidate is then
+    decided with exact integers over all shifts.  Independent of atomman, numpy only for the coordinates."""
+    np = _np()
     n = len(case['pos'])
+    if n < 2:
+        return set(), set()
+    P = np.array(case['pos'], dtype=float).reshape(-1, 3)
+    V = np.array(case['vects'], dtype=float)
+    c = float(case['cutoff'])
+    assert float(np.abs(P).max()) / c < 1e8, 'sparse oracle: coordinates too large for the float pre-filter'
+    cell = c * (1.0 + 1e-6)
+    rs = [(-1, 0, 1) if p else (0,) for p in case['pbc']]
+    table = {}
+    for x in rs[0]:
+        for y in rs[1]:
+            for z in rs[2]:
+                K = np.floor((P + (x * V[0] + y * V[1] + z * V[2])) / cell).astype(np.int64).tolist()
+                for j, k in enumerate(K):
+                    table.setdefault((k[0], k[1], k[2]), []).append(j)
+    K0 = np.floor(P / cell).astype(np.int64).tolist()
+    near = [(a, b, d) for a in (-1, 0, 1) for b in (-1, 0, 1) for d in (-1, 0, 1)]
+    cand = set()
+    for i, k in enumerate(K0):
+        for a, b, d in near:
+            for j in table.get((k[0] + a, k[1] + b, k[2] + d), ()):
+                if j != i:
+                    cand.add((i, j) if i < j else (j, i))
+    v, pos, ci, D = _scaled_ints(case)
+    sh = _shifts(case, v)
+    c2 = ci * ci
+    grid = case['regime'] == 'grid'
+    t = _tol(case)
+    band = 0 if grid else -((-c2 * t.numerator) // t.denominator)
+    inside, tie = set(), set()
+    for (i, j) in cand:
+        dx, dy, dz = pos[j][0] - pos[i][0], pos[j][1] - pos[i][1], pos[j][2] - pos[i][2]
+        best = min((dx + s[0]) ** 2 + (dy + s[1]) ** 2 + (dz + s[2]) ** 2 for s in sh)
+        if not grid and abs(best - c2) <= band:
+            tie.add((i, j))
+        elif best < c2:
+            inside.add((i, j))
+    return inside, tie
+
+
+def _structural(rows, coord, n):
+    """the clauses that need no distance: shape, coord = length, range, no self entry, strictly ascending, symmetric."""
     bad = []
     if len(rows) != n or len(coord) != n:
         return [('shape', f'{len(rows)} rows / {len(coord)} coordination numbers for {n} atoms')]
@@ -1084,20 +1449,49 @@ def clauses(case, rows, coord, cls=None):
         if coord[i] != len(r):
             bad.append(('coord', f'coord[{i}] = {coord[i]} but the list has {len(r)} entries'))
         if any(not (0 <= j < n) for j in r):
-            bad.append(('range', f'list of atom {i} holds an index outside 0..{n - 1}: {r}'))
+            bad.append(('range', f'list of atom {i} holds an index outside 0..{n - 1}: {r[:40]}'))
             return bad
         if i in r:
-            bad.append(('self', f'atom {i} lists itself: {r}'))
+            bad.append(('self', f'atom {i} lists itself: {r[:40]}'))
         if any(r[k] >= r[k + 1] for k in range(len(r) - 1)):
-            bad.append(('sorted', f'list of atom {i} is not strictly ascending (unsorted or duplicate): {r}'))
+            bad.append(('sorted', f'list of atom {i} is not strictly ascending (unsorted or duplicate): {r[:40]}'))
+        if len(bad) > 3:
+            return bad
     sets = [set(r) for r in rows]
     for i in range(n):
         for j in rows[i]:
             if i not in sets[j]:
                 bad.append(('symmetric', f'{j} is listed for atom {i} but {i} is not listed for atom {j}'))
                 break
+        if len(bad) > 3:
+            break
+    return bad
+
+
+def clauses_sparse(case, rows, coord, sparse=None):
+    """`clauses` with the sparse oracle (many atoms, few neighbors each)."""
+    n = len(case['pos'])
+    bad = _structural(rows, coord, n)
     if bad:
         return bad
+    inside, tie = sparse if sparse is not None else exact_neighbors_sparse(case)
+    listed = {(i, j) for i, r in enumerate(rows) for j in r if i < j}
+    for (i, j) in sorted(inside - listed)[:3]:
+        bad.append(('missing', f'atoms {i} and {j} are closer than the cutoff {case["cutoff"]!r} '
+                    f'(periodic distance {_dist(case, i, j):.12g}) but are not neighbors'))
+    for (i, j) in sorted(listed - inside - tie)[:3]:
+        bad.append(('spurious', f'atoms {i} and {j} are listed as neighbors but their periodic distance '
+                    f'{_dist(case, i, j):.12g} is not below the cutoff {case["cutoff"]!r}'))
+    return bad
+
+
+def clauses(case, rows, coord, cls=None):
+    """the property's clauses on one result; returns [(key, text)]."""
+    n = len(case['pos'])
+    bad = _structural(rows, coord, n)
+    if bad:
+        return bad
+    sets = [set(r) for r in rows]
     cls = cls if cls is not None else exact_classes(case)
     for (i, j), k in cls.items():
         listed = j in sets[i]
@@ -1487,6 +1881,10 @@ def _translate_object():
     m2 = re.fullmatch(r'self\.__neighbors = self\.__nlist\[:, (\d+):\]', b[2])
     if not m or not m2:
         raise TranslationError(f'NeighborList.build: coord / neighbors split changed: {b[1:]}')
+    expect('__init__', ["if 'model' in kwargs:\n    model = kwargs.pop('model')\n    self.load(model, **kwargs)\nelse:\n"
+                        "    system = kwargs.pop('system')\n    cutoff = kwargs.pop('cutoff')\n"
+                        "    self.build(system, cutoff, **kwargs)"])
+    expect('load', _LOAD_BODY)
     expect('__getitem__', ['return self.__neighbors[key, :self.coord[key]]'])
     expect('__len__', ['return len(self.__coord)'])
     expect('coord', ['return self.__coord'])
@@ -1518,9 +1916,301 @@ def _translate_scalars():
     return nd, dd, g
 
 
+# the statements of `nlist` / `unique_rows2` the model (Atomman/C03.lean) was written from: `<indent>|<statement>`,
+# translated holes as `<names>`, real C type names as `<real>` (see `_masked_function`)
+_NLIST_TEMPLATE = '''
+0|def nlist(system, <real> cutoff, Py_ssize_t initialsize=20, Py_ssize_t deltasize=10):
+4|pos = np.asarray(system.atoms.pos, dtype=<real>)
+4|cdef const <real>[:,:] posv = pos
+4|cdef const <real>[:,:] vects = system.box.vects
+4|cdef const <real>[:] origin = system.box.origin
+4|cdef bint pbc_a = system.pbc[0]
+4|cdef bint pbc_b = system.pbc[1]
+4|cdef bint pbc_c = system.pbc[2]
+4|<nbr_init>
+4|<bin_init>
+4|cdef Py_ssize_t natoms = posv.shape[0]
+4|<cutoff2>
+4|cdef Py_ssize_t i, j, k, l
+4|cdef Py_ssize_t x, y, z
+4|cdef <real> corner
+4|cdef <real>[:] supermin=np.empty(3)
+4|cdef <real>[:] supermax=np.empty(3)
+4|cdef <real> binsize
+4|cdef <real>[:] xbins, ybins, zbins
+4|cdef Py_ssize_t numxbins, numybins, numzbins
+4|cdef long long [:] atomindex
+4|cdef long long [:,:] newxyzindex
+4|cdef long long [:] newatomindex
+4|cdef Py_ssize_t xl, xh, yl, yh, zl, zh
+4|cdef <real>[:,:] ghostpos = np.empty((0, 3))
+4|cdef <real>[:,:] newghostpos
+4|newpos = np.empty(pos.shape)
+4|cdef <real>[:,:] newposv = newpos
+4|cdef long long[:] ghostindex = np.empty(0, dtype=np.int64)
+4|cdef long long[:] newindex = np.empty(posv.shape[0], dtype=np.int64)
+4|cdef long long[:] newghostindex
+4|cdef long long [:,:] xyzghostindex
+4|cdef Py_ssize_t maxc, c, n
+4|cdef Py_ssize_t dc, dx, dy, dz
+4|cdef long long[:, :, :, :] xyzbins, newbins
+4|cdef Py_ssize_t uindex, vindex, u, v, w
+4|cdef long long [:] shortlist, longlist, superlonglist
+4|cdef bint end
+4|cdef <real>[:,:] upos, vpos
+4|cdef <real>[:] dmag2
+4|cdef Py_ssize_t uj, vj,
+4|<nbr_init_width>
+4|for i in range(natoms):
+8|neighbors[i, 0] = 0
+4|cdef long long[:, :] newneighbors
+4|cdef bint new
+4|for j in range(3):
+8|supermin[j] = origin[j]
+8|supermax[j] = origin[j]
+4|for z in range(0, 2):
+8|for y in range(0, 2):
+12|for x in range(0, 2):
+16|for j in range(3):
+20|corner = origin[j] + x * vects[0, j] + y * vects[1, j] + z * vects[2, j]
+20|if corner < supermin[j]:
+24|supermin[j] = corner
+20|if corner > supermax[j]:
+24|supermax[j] = corner
+4|for j in range(3):
+8|supermin[j] -= 1.01 * cutoff
+8|supermax[j] += 1.01 * cutoff
+4|<binsize>
+4|xbins = np.arange(supermin[0], supermax[0] + binsize, binsize)
+4|ybins = np.arange(supermin[1], supermax[1] + binsize, binsize)
+4|zbins = np.arange(supermin[2], supermax[2] + binsize, binsize)
+4|numxbins = len(xbins)
+4|numybins = len(ybins)
+4|numzbins = len(zbins)
+4|xindex = np.digitize(pos[:, 0], xbins) - 1
+4|yindex = np.digitize(pos[:, 1], ybins) - 1
+4|zindex = np.digitize(pos[:, 2], zbins) - 1
+4|xyzindex = np.hstack((xindex[:, np.newaxis], yindex[:, np.newaxis], zindex[:, np.newaxis]))
+4|atomindex = np.arange(natoms, dtype=np.int64)
+4|if pbc_a:
+8|xl, xh = -1, 2
+4|else:
+8|xl, xh = 0, 1
+4|if pbc_b:
+8|yl, yh = -1, 2
+4|else:
+8|yl, yh = 0, 1
+4|if pbc_c:
+8|zl, zh = -1, 2
+4|else:
+8|zl, zh = 0, 1
+4|for x in range(xl, xh):
+8|for y in range(yl, yh):
+12|for z in range(zl, zh):
+16|if x == 0 and y == 0 and z == 0:
+20|pass
+16|else:
+20|k=0
+20|for i in range(posv.shape[0]):
+24|for j in range(3):
+28|newposv[i, j] = x * vects[0, j] + y * vects[1, j] + z * vects[2, j] + posv[i, j]
+24|if (    newposv[i, 0] > supermin[0] and newposv[i, 0] < supermax[0]
+28|and newposv[i, 1] > supermin[1] and newposv[i, 1] < supermax[1]
+28|and newposv[i, 2] > supermin[2] and newposv[i, 2] < supermax[2]):
+28|newindex[k] = i
+28|k += 1
+20|ghostpos = np.vstack((ghostpos, newpos[newindex[:k]]))
+20|ghostindex = np.hstack((ghostindex, newindex[:k]))
+4|if len(ghostpos) > 0:
+8|xindex = np.digitize(ghostpos[:, 0], xbins) - 1
+8|yindex = np.digitize(ghostpos[:, 1], ybins) - 1
+8|zindex = np.digitize(ghostpos[:, 2], zbins) - 1
+8|xyzghostindex = np.hstack((xindex[:, np.newaxis],
+35|yindex[:, np.newaxis],
+35|zindex[:, np.newaxis]))
+8|xyzindex = np.vstack((xyzindex, xyzghostindex))
+8|atomindex = np.hstack((atomindex, ghostindex))
+4|realbins = unique_rows2(np.ascontiguousarray(xyzindex))
+4|maxc = 0
+4|<bin_init_width>
+4|for n in range(atomindex.shape[0]):
+8|x, y, z = xyzindex[n]
+8|c = xyzbins[x, y, z, 0] + 1
+8|<bin_trigger>
+12|<bin_width>
+12|for i in range(xyzbins.shape[0]):
+16|for j in range(xyzbins.shape[1]):
+20|for k in range(xyzbins.shape[2]):
+24|<bin_copy>
+28|newbins[i, j, k, l] = xyzbins[i, j, k, l]
+12|xyzbins = newbins
+12|<bin_grow>
+8|if c > maxc:
+12|maxc = c
+8|xyzbins[x, y, z, 0] = c
+8|xyzbins[x, y, z, c] = atomindex[n]
+4|superlonglist = np.empty(14 * maxc, dtype=np.int64)
+4|for i in range(len(realbins)):
+8|x, y, z = realbins[i]
+8|c = xyzbins[x, y, z, 0]
+8|shortlist = np.empty(c, dtype=np.int64)
+8|for j in range(c):
+12|shortlist[j] = xyzbins[x, y, z, j+1]
+12|superlonglist[j] = shortlist[j]
+8|end = False
+8|for dz in range(-1, 2):
+12|for dy in range(-1, 2):
+16|for dx in range(-1, 2):
+20|if dx == 0 and dy == 0 and dz == 0:
+24|end = True
+24|break
+20|if (x + dx < 0 or x + dx == numxbins or
+24|y + dy < 0 or y + dy == numybins or
+24|z + dz < 0 or z + dz == numzbins):
+24|continue
+20|dc = xyzbins[x + dx, y + dy, z + dz, 0]
+20|for j in range(dc):
+24|superlonglist[c+j] = xyzbins[x + dx, y + dy, z + dz, j+1]
+20|c += dc
+16|if end:
+20|break
+12|if end:
+16|break
+8|longlist = superlonglist[:c]
+8|for u in range(shortlist.shape[0]):
+12|uindex = shortlist[u]
+12|upos = np.empty((longlist.shape[0]-u-1, 3))
+12|vpos = np.empty((longlist.shape[0]-u-1, 3))
+12|for w, v in enumerate(range(u+1, longlist.shape[0])):
+16|for j in range(3):
+20|vindex = longlist[v]
+20|upos[w, j] = posv[uindex, j]
+20|vpos[w, j] = posv[vindex, j]
+12|dmag2 = dmag2_c(upos, vpos, vects, pbc_a, pbc_b, pbc_c)
+12|for w, v in enumerate(range(u+1, longlist.shape[0])):
+16|<accept>
+20|vindex = longlist[v]
+20|<selftest>
+24|new = True
+24|uj = -1
+24|vj = -1
+24|for j in range(1, neighbors[uindex, 0] + 1):
+28|if neighbors[uindex, j] == vindex:
+32|new = False
+32|break
+28|elif neighbors[uindex, j] > vindex:
+32|uj = j
+32|break
+24|if uj == -1:
+28|uj = neighbors[uindex, 0] + 1
+24|if new:
+28|for j in range(1, neighbors[vindex, 0] + 1):
+32|if neighbors[vindex, j] > uindex:
+36|vj = j
+36|break
+28|if vj == -1:
+32|vj = neighbors[vindex, 0] + 1
+28|neighbors[uindex, 0] += 1
+28|neighbors[vindex, 0] += 1
+28|<nbr_trigger>
+32|<nbr_width>
+32|for j in range(neighbors.shape[0]):
+36|<nbr_copy>
+40|newneighbors[j, k] = neighbors[j, k]
+32|neighbors = newneighbors
+32|<nbr_grow>
+28|for j in range(neighbors[uindex, 0], uj - 1, -1):
+32|neighbors[uindex, j] = neighbors[uindex, j - 1]
+28|for j in range(neighbors[vindex, 0], vj - 1, -1):
+32|neighbors[vindex, j] = neighbors[vindex, j - 1]
+28|neighbors[uindex, uj] = vindex
+28|neighbors[vindex, vj] = uindex
+4|return np.asarray(neighbors)
+0|def unique_rows2(a):
+4|return np.unique(a.view(np.dtype((np.void, a.dtype.itemsize*a.shape[1])))).view(a.dtype).reshape(-1, a.shape[1])
+'''
+
+_LOAD_BODY = [
+    'nterms = 0', 'natoms = 0',
+    "with uber_open_rmode(model) as fin:\n    for line in fin:\n        line = line.decode('UTF-8')\n"
+    "        terms = line.split()\n        n_n = len(terms)\n        if terms[0][0] != '#' and n_n > 0:\n"
+    "            natoms += 1\n            if n_n > nterms:\n                nterms = n_n\n"
+    "    self.__nlist = np.empty((natoms, nterms + 1), dtype=int)\n    self.__coord = self.__nlist[:, 0]\n"
+    "    self.__neighbors = self.__nlist[:, 1:]\n    self.__coord[:] = 0\n    fin.seek(0)\n    for line in fin:\n"
+    "        line = line.decode('UTF-8')\n        terms = line.split()\n"
+    "        if len(terms) > 0 and terms[0][0] != '#':\n            i = int(terms[0])\n"
+    "            self.__coord[i] = len(terms) - 1\n            for j in range(1, len(terms)):\n"
+    "                self.__neighbors[i, j - 1] = terms[j]"]
+
+
+# -- whole-function pins: the model was written against these statements, in this order and nesting ----------------
+_SCALAR_HOLES = [r'cdef \w+ cutoff2 = (?P<cutoff2>.+)', r'binsize = (?P<binsize>.+)',
+                 r'if (?P<accept>[^:]*dmag2\[w\][^:]*):', r'if (?P<selftest>(?:uindex|vindex) *\S+ *(?:uindex|vindex)):']
+_REAL_WORD = r'\b(?:long double|double|float|c?np\.float(?:32|64)_t|np\.float(?:16|32|64)|np\.longdouble)\b'
+
+
+def _masked_function(src, header_re, what):
+    """the code lines of one top-level function as `<indent>|<text>`: comments, docstrings and blank lines removed,
+    indentation kept (so that a statement moved into / out of a loop or branch shows), every line the translator turns
+    into a Lean definition replaced by the names of its holes, every real C type name by `<real>` (the declared types
+    are an obligation of their own: src_reals_double)."""
+    import re
+    from ..translate import TranslationError
+    raw = src.splitlines()
+    starts = [k for k, l in enumerate(raw) if re.match(header_re, l)]
+    if len(starts) != 1:
+        raise TranslationError(f'{what}: function header found {len(starts)} times')
+    k0 = starts[0]
+    end = len(raw)
+    for k in range(k0 + 1, len(raw)):
+        if raw[k] and not raw[k][0].isspace() and not raw[k].startswith(('#', ')')):
+            end = k
+            break
+    body = '\n'.join(raw[k0:end])
+    body = re.sub(r'(\'\'\'|""")(?:.|\n)*?\1', '', body)
+    rows = []
+    for l in body.splitlines():
+        l = re.sub(r'#.*$', '', l).rstrip()
+        if l.strip():
+            rows.append((len(l) - len(l.lstrip()), l.strip()))
+    texts = [t for _, t in rows]
+    mask = {}
+    for block in (_BIN_BLOCK, _NBR_BLOCK):          # holes of the growth blocks: by position inside the matched block
+        for k in range(len(texts) - len(block) + 1):
+            ms = [re.fullmatch(pat, texts[k + off]) for off, pat in enumerate(block)]
+            if all(ms):
+                for off, m in enumerate(ms):
+                    if m.groupdict():
+                        mask[k + off] = '<' + ','.join(sorted(m.groupdict())) + '>'
+    for k, t in enumerate(texts):                    # the single statements and scalar tests: by their own shape
+        for pat in _SINGLE + _SCALAR_HOLES:
+            m = re.fullmatch(pat, t)
+            if m:
+                mask[k] = '<' + ','.join(sorted(m.groupdict())) + '>'
+    return [f'{ind}|{mask.get(k) or re.sub(_REAL_WORD, "<real>", t)}' for k, (ind, t) in enumerate(rows)]
+
+
+def _pin_statements():
+    """`nlist` and `unique_rows2` of nlist.pyx, statement by statement, against the source the model was written from
+    (`_NLIST_TEMPLATE`).  An extra branch (a fast path with its own `return`), another way of collecting the occupied
+    bins, a changed loop bound — anything that is not one of the translated holes — is outside the translated subset."""
+    from ..translate import TranslationError
+    src = cm.source('atomman/core/nlist.pyx')
+    got = _masked_function(src, r'^def nlist\(', 'nlist.pyx: nlist') \
+        + _masked_function(src, r'^def unique_rows2\(', 'nlist.pyx: unique_rows2')
+    want = [l for l in _NLIST_TEMPLATE.splitlines() if l.strip()]
+    for k in range(max(len(got), len(want))):
+        g = got[k] if k < len(got) else '<end of function>'
+        w = want[k] if k < len(want) else '<end of function>'
+        if g != w:
+            raise TranslationError(f'nlist.pyx: statement {k + 1} of nlist / unique_rows2 is not the modelled one: '
+                                   f'source has {g.split("|", 1)[-1]!r}, the model was written for {w.split("|", 1)[-1]!r}')
+
+
 def translate():
     from ..translate import TranslationError
     lines = _code_lines(cm.source('atomman/core/nlist.pyx'))
+    _pin_statements()
     g = {}
     g.update(_match_block(lines, _BIN_BLOCK, 'bin-table growth'))
     g.update(_match_block(lines, _NBR_BLOCK, 'neighbor-array growth'))
@@ -1810,7 +2500,8 @@ def canary(ctx):
         return ctx.extra['_canary']
     rng = random.Random(ctx.seed * 104729 + 11)
     cases = [c for _, c in load_corpus()]
-    for gen in (gen_general, gen_grid, gen_edges, gen_hunt, gen_shear, gen_dense, gen_seq_start, gen_fine, gen_nearcut):
+    for gen in (gen_general, gen_grid, gen_edges, gen_hunt, gen_shear, gen_dense, gen_seq_start, gen_fine, gen_nearcut,
+                gen_bigcut, gen_elongated):
         cases += [gen(rng, it) for it in range(12 if gen is gen_dense else 40)]
     cases += [gen_crystal(rng, it) for it in range(24)]
     res = _run_forked(cases)
@@ -1835,6 +2526,12 @@ def _roundtrip_real(ctx, case, nl, rows, tmpdir, tag, it=0):
     path = os.path.join(tmpdir, 'nl.txt')
     how = ('path', 'content', 'file')[it % 3]
     try:
+        if it % 2:
+            # the target exists already and is LONGER than what will be written (left-overs would be read as atoms)
+            with open(path, 'w') as f:
+                f.write('# an older file\n' + ''.join(f'{k} 0 1 2 3 4 5 6 7 8 9 10 11 12\n' for k in range(len(rows) + 40)))
+        elif os.path.exists(path):
+            os.unlink(path)
         nl.dump(path)
         with open(path, 'rb') as f:
             raw = f.read()
@@ -1849,12 +2546,19 @@ def _roundtrip_real(ctx, case, nl, rows, tmpdir, tag, it=0):
         coord_back = [int(c) for c in back.coord]
     except Exception as e:  # noqa
         ctx.violate('roundtrip-raises', f'NeighborList.dump / NeighborList(model=<{how}>) raised {type(e).__name__}: {e} '
-                    f'for the lists {rows} ({tag})', _payload(case, stage='roundtrip', how=how))
+                    f'for the lists {_short(rows, 12)} ({tag})', _payload(case, stage='roundtrip', how=how, it=it))
         return None
     if rows_back != rows or coord_back != [len(r) for r in rows]:
         ctx.violate('roundtrip', f'neighbor list read back from its own dump (model=<{how}>) differs ({tag}): wrote '
-                    f'{rows}, read {rows_back} coord {coord_back}', _payload(case, stage='roundtrip', how=how))
+                    f'{_short(rows, 12)}, read {_short(rows_back, 12)} coord {_short(coord_back, 12)}',
+                    _payload(case, stage='roundtrip', how=how, it=it))
         return None
+    if len(rows) <= 200:
+        bad = _object_clauses(back, rows, coord_back)
+        if bad:
+            ctx.violate('object', f'NeighborList read back from a dump (model=<{how}>): {bad} ({tag})',
+                        _payload(case, stage='roundtrip', how=how, it=it))
+            return None
     return raw
 
 
@@ -1953,7 +2657,8 @@ def _correspond(ctx):
         plan = [(gen_general, ctx.n(120, 2500)), (gen_grid, ctx.n(120, 3000)), (gen_edges, ctx.n(50, 1000)),
                 (gen_hunt, ctx.n(150, 4000)), (gen_outside, ctx.n(80, 1200)), (gen_shear, ctx.n(120, 2000)),
                 (gen_dense, ctx.n(15, 140)), (gen_fine, ctx.n(120, 3000)), (gen_nearcut, ctx.n(100, 2000)),
-                (_gen_crystal_small, ctx.n(12, 150)), (gen_narrowbin, ctx.n(40, 1000))]
+                (_gen_crystal_small, ctx.n(12, 150)), (gen_narrowbin, ctx.n(40, 1000)),
+                (gen_bigcut, ctx.n(60, 1500)), (gen_elongated, ctx.n(30, 500))]
         import time
         ph = ctx.extra.setdefault('phase_seconds', {})
         for gen, count in plan:
@@ -2349,6 +3054,103 @@ def gen_large_rows(rng):
     return n, {i: sorted(r) for i, r in rows.items()}
 
 
+def gen_hub_rows(rng):
+    """neighbor lists with very LONG rows (999 .. n-1 entries: around and beyond 1000, where array printing starts to
+    summarise) for 1003-2600 atoms: one to three hub atoms listing most other atoms, every listed atom listing the hub."""
+    n = rng.randint(1003, 2600)
+    rows = {}
+    hubs = rng.sample(range(n), rng.randint(1, 3))
+    for h in hubs:
+        k = rng.choice([999, 1000, 1001, 1002, 1003, min(n - 1, 1500), n - 1])
+        for j in rng.sample([x for x in range(n) if x != h], k):
+            rows.setdefault(h, set()).add(j)
+            rows.setdefault(j, set()).add(h)
+    return n, {i: sorted(r) for i, r in rows.items()}
+
+
+def ball_system(seed, nball, pbc):
+    """`nball` atoms inside a cube of edge 0.5 cutoff (every pair closer than 0.87 cutoff: all mutual neighbors, rows
+    of nball - 1 > 1000 entries) plus four isolated atoms 2.4 cutoffs or more from everything, shuffled; mildly tilted
+    cell of 12 cutoffs, the cube wherever it falls with respect to the bin edges.  Returns (case, ball indices)."""
+    np = _np()
+    rng = random.Random(seed)
+    c = rng.uniform(0.6, 1.6)
+    v = np.diag([12.0 * c] * 3)
+    v[1, 0] = rng.uniform(-0.05, 0.05) * c
+    v[2, 1] = rng.uniform(-0.05, 0.05) * c
+    origin = np.array([rng.uniform(-3, 3) for _ in range(3)])
+    cen = np.array([rng.uniform(0.4, 0.6) for _ in range(3)]) @ v
+    pts = [(cen + np.array([rng.uniform(-0.25, 0.25) * c for _ in range(3)])).tolist() for _ in range(nball)]
+    far = [(np.array(r) @ v).tolist() for r in ([0.1, 0.1, 0.1], [0.9, 0.1, 0.1], [0.1, 0.9, 0.1], [0.1, 0.1, 0.9])]
+    allp = [(p, True) for p in pts] + [(p, False) for p in far]
+    rng.shuffle(allp)
+    pos = np.array([p for p, _ in allp]) + origin
+    ball = [k for k, (_, b) in enumerate(allp) if b]
+    return _case(v, origin.tolist(), pos, pbc, c, 'float'), ball
+
+
+def check_ball(ctx, seed, nball, pbc, init, delta, tmpdir):
+    """rows with more than 1000 entries through nlist itself (about 0.6 M pairs, every row grows ~ 1000 / deltasize
+    times, one bin neighbourhood holds > 1000 atoms: the bin table grows ~ 100 times), closed-form oracle, then the
+    file round trip of those rows."""
+    np = _np()
+    import atomman as am
+    payload = {'op': 'ball', 'seed': seed, 'nball': nball, 'pbc': list(pbc), 'init': init, 'delta': delta}
+    case, ball = ball_system(seed, nball, pbc)
+    n = len(case['pos'])
+    P = np.array(case['pos'])
+    B = P[ball]
+    d2 = ((B[:, None, :] - B[None, :, :]) ** 2).sum(axis=-1)
+    assert float(d2.max()) < (0.9 * case['cutoff']) ** 2, 'harness: ball wider than designed'
+    ctx.stats.case('oracle:ball', json.dumps(payload, sort_keys=True), nontrivial=True,
+                   sample={'natoms': n, 'pbc': list(pbc), 'cutoff': case['cutoff'], 'initialsize': init,
+                           'deltasize': delta, 'longest_row': nball - 1})
+    desc = (f'{nball} atoms within 0.87 cutoffs of each other + 4 isolated atoms (cutoff {case["cutoff"]!r}, pbc '
+            f'{list(pbc)}, initialsize {init}, deltasize {delta}, replay seed {seed})')
+    try:
+        system = _system(case)
+        nl = am.NeighborList(system=system, cutoff=case['cutoff'], initialsize=init, deltasize=delta)
+        coord = np.asarray(nl.coord)
+        nbr = np.asarray(nl.nlist)[:, 1:]
+    except Exception as e:  # noqa
+        ctx.violate('raises', f'neighbor list of {desc} raised {type(e).__name__}: {e}', payload)
+        return
+    ballset = np.zeros(n, dtype=bool)
+    ballset[ball] = True
+    ecoord = np.where(ballset, nball - 1, 0)
+    if coord.shape != (n,) or (coord != ecoord).any():
+        i = int(np.nonzero(coord != ecoord)[0][0]) if coord.shape == (n,) else 0
+        ctx.violate('missing' if coord.shape == (n,) and coord[i] < ecoord[i] else 'spurious',
+                    f'{desc}: atom {i} ({"in the ball" if ballset[i] else "isolated"}) has coordination '
+                    f'{int(coord[i]) if coord.shape == (n,) else None}, expected {int(ecoord[i])}', payload)
+        return
+    ballarr = np.array(sorted(ball))
+    for i in ball:
+        exp = ballarr[ballarr != i]
+        if nbr.shape[1] < nball - 1 or not np.array_equal(nbr[i, :nball - 1], exp):
+            got = nbr[i, :nball - 1]
+            k = int(np.nonzero(got != exp)[0][0]) if got.shape == exp.shape else 0
+            ctx.violate('sorted', f'{desc}: the list of atom {i} differs from the ascending list of the other ball atoms '
+                        f'at entry {k}: {got[max(0, k - 2):k + 3].tolist()} vs {exp[max(0, k - 2):k + 3].tolist()}', payload)
+            return
+    path = os.path.join(tmpdir, 'ball.txt')
+    try:
+        with open(path, 'w') as f:          # the file exists already (non-empty)
+            f.write('0 1\n1 0\n' * 20)
+        nl.dump(path)
+        back = am.NeighborList(model=path)
+        same, where = _nl_equal(nl, back) if len(back) == n else (False, -1)
+    except Exception as e:  # noqa
+        ctx.violate('roundtrip-raises', f'the neighbor list of {desc} (rows of {nball - 1} entries) cannot be read back '
+                    f'from its own dump: {type(e).__name__}: {str(e)[:200]}', payload)
+        return
+    if not same:
+        i = where if where is not None and where >= 0 else ball[0]
+        ctx.violate('roundtrip', f'the neighbor list of {desc} read back from its own dump differs: {len(back)} atoms; '
+                    f'atom {i}: wrote {int(coord[i])} entries, read '
+                    f'{int(back.coord[i]) if i < len(back) else None}', payload)
+
+
 def _nl_equal(a, b):
     """two NeighborList objects hold the same coordination numbers and lists (vectorised)."""
     np = _np()
@@ -2365,6 +3167,16 @@ def _nl_equal(a, b):
     if diff.any():
         return False, int(np.nonzero(diff)[0][0])
     return True, None
+
+
+def _short(obj, k=8):
+    """lists / dicts of lists for a message: long lists cut to their first and last entries."""
+    if isinstance(obj, dict):
+        return '{' + ', '.join(f'{a}: {_short(b, k)}' for a, b in obj.items()) + '}'
+    obj = list(obj)
+    if len(obj) <= 2 * k:
+        return str(obj)
+    return f'[{", ".join(map(str, obj[:k]))}, ... ({len(obj)} entries) ..., {", ".join(map(str, obj[-k:]))}]'
 
 
 def check_large_rows(ctx, n, rows, tmpdir):
@@ -2388,23 +3200,28 @@ def check_large_rows(ctx, n, rows, tmpdir):
         return
     if not ok0:
         ctx.violate('load-large', f'NeighborList(model=<text for {n} atoms>) holds other lists than the text: e.g. '
-                    f'{ {i: got0[i] for i in show} } for {show}', payload)
+                    f'{_short({i: got0[i] for i in show})} for {_short(show)}', payload)
         return
     path = os.path.join(tmpdir, 'large.txt')
     try:
+        if n % 2:
+            with open(path, 'w') as f:      # the file exists already (non-empty)
+                f.write('# left over\n0 1\n1 0\n')
         nl0.dump(path)
         nl1 = am.NeighborList(model=path)
         same, where = _nl_equal(nl0, nl1) if len(nl1) == n else (False, -1)
         got1 = {i: [int(j) for j in nl1[i]] for i in show} if len(nl1) == n else {}
     except Exception as e:  # noqa
-        ctx.violate('roundtrip-raises', f'a neighbor list for {n} atoms (lists of the last atoms with neighbors: {show}) '
-                    f'cannot be read back from its own dump: {type(e).__name__}: {e}', payload)
+        ctx.violate('roundtrip-raises', f'a neighbor list for {n} atoms (longest list: {max(len(r) for r in rows.values())} '
+                    f'entries; lists of the last atoms with neighbors: {_short(show)}) '
+                    f'cannot be read back from its own dump: {type(e).__name__}: {str(e)[:200]}', payload)
         return
     if not same:
         w = where if where is not None and where >= 0 else max(rows)
         ctx.violate('roundtrip', f'a neighbor list for {n} atoms read back from its own dump differs: atom {w} had '
-                    f'{[int(j) for j in nl0[w]]}, read back {len(nl1)} atoms, atom {w}: '
-                    f'{[int(j) for j in nl1[w]] if w < len(nl1) else None}; {got1} for {show}', payload)
+                    f'{_short([int(j) for j in nl0[w]])}, read back {len(nl1)} atoms, atom {w}: '
+                    f'{_short([int(j) for j in nl1[w]]) if w < len(nl1) else None}; {_short(got1)} for {_short(show)}',
+                    payload)
 
 
 def check_lattice(ctx, m, pbc, init, delta, tmpdir):
@@ -2479,6 +3296,18 @@ def scale_checks(ctx, rng, tmpdir, broken):
         check_large_rows(ctx, n, rows, tmpdir)
         if len(ctx.violations) >= 6:
             return
+    for _ in range(ctx.n(3, 20) * (2 if broken else 1)):
+        n, rows = gen_hub_rows(rng)
+        check_large_rows(ctx, n, rows, tmpdir)
+        if len(ctx.violations) >= 6:
+            return
+    balls = [(rng.randrange(10 ** 6), rng.randint(1002, 1150), ALL_PBC[rng.randrange(8)], rng.choice([1, 3, 20]),
+              rng.choice([1, 7, 10, 25])) for _ in range(ctx.n(1, 6) + (1 if broken else 0))]
+    for seed, nball, pbc, init, delta in balls:
+        _trace({'op': 'ball', 'seed': seed, 'nball': nball, 'pbc': list(pbc), 'init': init, 'delta': delta})
+        check_ball(ctx, seed, nball, pbc, init, delta, tmpdir)
+        if len(ctx.violations) >= 6:
+            return
     plans = [(47, (False, False, False), 6, 1)]
     if ctx.thorough or broken:
         plans += [(47, (True, True, True), 1, 1), (48, (True, False, True), 20, 10), (50, (False, True, False), 3, 2)]
@@ -2521,12 +3350,17 @@ def _search_case(ctx, case, kind, name, full, tmpdir=None):
     init, delta = case['init'] or 20, case['delta'] or 10
     try:
         system = _system(case)
+        before = _snapshot(system)
         nl = _build(case, system, init, delta, 0)
         rows = _rows(nl)
         coord = [int(c) for c in nl.coord]
     except Exception as e:  # noqa
         ctx.violate('raises', f'neighbor list construction raised {type(e).__name__}: {e} [{kind}; natoms={n}, '
                     f'pbc={case["pbc"]}, initialsize={init}, deltasize={delta}]', _payload(case))
+        return
+    if _snapshot(system) != before:
+        ctx.violate('input-modified', f'building the neighbor list changed the System it was given (positions / box / pbc '
+                    f'no longer bitwise what they were) [{kind}; natoms={n}, pbc={case["pbc"]}]', _payload(case))
         return
     cls = exact_classes(case)
     nin = sum(1 for k in cls.values() if k == 'in')
@@ -2560,6 +3394,51 @@ def _search_case(ctx, case, kind, name, full, tmpdir=None):
             ctx.violate('storage', f'result depends on the storage sizes: initialsize/deltasize {init}/{delta} gives '
                         f'{rows}, {alt[0]}/{alt[1]} gives {rows2}', _payload(case, init2=alt[0], delta2=alt[1]))
             return
+        # the same values handed over as other python / numpy types, and nlist() called positionally
+        form = 1 + (n + init + delta) % 3
+        try:
+            rows3 = _rows(_build(case, system, init, delta, (n + delta) % 2, form))
+        except Exception as e:  # noqa
+            ctx.violate('forms', f'neighbor list construction with {FORMS[form]} (cutoff {_cutoff_form(case["cutoff"], form)!r} '
+                        f'of type {type(_cutoff_form(case["cutoff"], form)).__name__}) raised {type(e).__name__}: {e}',
+                        _payload(case, form=form))
+            return
+        if rows3 != rows:
+            ctx.violate('forms', f'result depends on the type of the arguments: {FORMS[form]} (cutoff '
+                        f'{_cutoff_form(case["cutoff"], form)!r} of type {type(_cutoff_form(case["cutoff"], form)).__name__}) '
+                        f'gives {rows3}, python float / int give {rows}', _payload(case, form=form))
+            return
+        # very large storage parameters (small systems only: the array is natoms x (initialsize + 1))
+        if n <= 12 and (n + init) % 5 == 0:
+            big = [(1000, 1), (1, 1000), (65537, 3), (300, 100000)][(n + delta) % 4]
+            try:
+                rows4 = _rows(_build(case, system, big[0], big[1], 0))
+            except Exception as e:  # noqa
+                ctx.violate('raises', f'NeighborList(initialsize={big[0]}, deltasize={big[1]}) raised {type(e).__name__}: {e}',
+                            _payload(case, init2=big[0], delta2=big[1]))
+                return
+            if rows4 != rows:
+                ctx.violate('storage', f'result depends on the storage sizes: initialsize/deltasize {init}/{delta} gives '
+                            f'{rows}, {big[0]}/{big[1]} gives {rows4}', _payload(case, init2=big[0], delta2=big[1]))
+                return
+        # results are fresh arrays: scribbling over one result changes neither another result nor a later call
+        if (n + init) % 4 == 0:
+            try:
+                np_ = _np()
+                np_.asarray(nl.nlist)[...] = -7
+                rows5 = _rows(_build(case, system, init, delta, 0))
+                if _rows(nl2) != rows or rows5 != rows:
+                    ctx.violate('aliased', f'after overwriting the array of one result (NeighborList.nlist[...] = -7) another '
+                                f'result of the same system reads {_rows(nl2)} and a new call gives {rows5}; expected {rows}',
+                                _payload(case, stage='scribble'))
+                    return
+            except ValueError:
+                pass                # a read-only result cannot be scribbled over: nothing to check
+        # exact scaling: on the dyadic grids multiplying cell, origin, positions and cutoff by 2^k changes no bit of any
+        # mantissa, every comparison comes out the same (k up to where the squares stay inside the double range)
+        if case['regime'] == 'grid' and not case.get('dtype') and not case.get('fine') and (n + delta) % 3 == 0:
+            if not _scale_clause(ctx, case, rows, kind):
+                return
         # lists agree with am.dmag of the real code (outside the tie band)
         if n >= 2:
             _dmag_crosscheck(ctx, case, system, rows, cls)
@@ -2567,6 +3446,89 @@ def _search_case(ctx, case, kind, name, full, tmpdir=None):
             ctx.extra['_tn'] = ctx.extra.get('_tn', 0) + 1
             if ctx.extra['_tn'] % 4 == 0:
                 _true_nearest_report(ctx, case, rows)
+
+
+def _search_chain(ctx, case, kind, tmpdir, it):
+    """thousands of atoms with few neighbors each: the clauses with the sparse oracle, the object clauses, other
+    storage sizes through the other entry point, the file round trip."""
+    n = len(case['pos'])
+    init, delta = case['init'] or 20, case['delta'] or 10
+    try:
+        system = _system(case)
+        nl = _build(case, system, init, delta, it % 2)
+        rows = _rows(nl)
+        coord = [int(c) for c in nl.coord]
+    except Exception as e:  # noqa
+        ctx.violate('raises', f'neighbor list construction raised {type(e).__name__}: {e} [{kind}; natoms={n}, '
+                    f'pbc={case["pbc"]}, initialsize={init}, deltasize={delta}]', _payload(case))
+        return
+    sp = exact_neighbors_sparse(case)
+    ctx.stats.case('oracle:' + kind, json.dumps(case, sort_keys=True), nontrivial=len(sp[0]) > 0,
+                   sample={'natoms': n, 'pbc': case['pbc'], 'cutoff': case['cutoff'], 'pairs_below_cutoff': len(sp[0]),
+                           'initialsize': init, 'deltasize': delta, 'long_axis': case.get('long_axis')})
+    tag = f' [{kind}; natoms={n}, pbc={case["pbc"]}, initialsize={init}, deltasize={delta}]'
+    for key, what in clauses_sparse(case, rows, coord, sp)[:1]:
+        ctx.violate(key, what + tag, _payload(case))
+        return
+    bad = _object_clauses(nl, rows, coord)
+    if bad:
+        ctx.violate('object', bad + tag, _payload(case))
+        return
+    try:
+        rows2 = _rows(_build(case, system, 1, 1, 1 - it % 2))
+    except Exception as e:  # noqa
+        ctx.violate('raises', f'neighbor list construction with initialsize=1, deltasize=1 raised {type(e).__name__}: {e}'
+                    + tag, _payload(case, init2=1, delta2=1))
+        return
+    if rows2 != rows:
+        i = [k for k in range(n) if k >= len(rows2) or rows2[k] != rows[k]][0]
+        ctx.violate('storage', f'result depends on the storage sizes: atom {i}: {rows[i]} with {init}/{delta}, '
+                    f'{rows2[i] if i < len(rows2) else None} with 1/1' + tag, _payload(case, init2=1, delta2=1))
+        return
+    if tmpdir is not None:
+        _roundtrip_real(ctx, case, nl, rows, tmpdir, kind, it)
+
+
+SCALE_EXPONENTS = [-480, -400, -300, -200, -100, -60, -30, -10, 10, 30, 60, 100, 200, 300, 400, 480]
+
+
+def _scaled_case(case, k):
+    np = _np()
+    f = math.ldexp(1.0, k)
+    c2 = dict(case)
+    c2['vects'] = (np.array(case['vects']) * f).tolist()
+    c2['origin'] = [x * f for x in case['origin']]
+    c2['pos'] = (np.array(case['pos']).reshape(-1, 3) * f).tolist()
+    c2['cutoff'] = case['cutoff'] * f
+    return c2
+
+
+def _scale_clause(ctx, case, rows, kind):
+    """False after a violation."""
+    np = _np()
+    big = float(max(np.abs(np.array(case['pos'])).max() if len(case['pos']) else 0.0, np.abs(np.array(case['vects'])).sum(),
+                    case['cutoff']))
+    ks = [k for k in SCALE_EXPONENTS if 2 * (math.log2(big) + abs(k)) + 4 < 1020]
+    k = ks[(len(rows) + int(case['cutoff'] * 8)) % len(ks)]
+    c2 = _scaled_case(case, k)
+    try:
+        s2 = _system(c2)
+        if c2['vects'] != _scaled_case(case, k)['vects']:
+            return True             # Box normalised the scaled cell differently (C01): not this property
+        r2 = _rows(_build(c2, s2, case['init'] or 20, case['delta'] or 10, 0))
+    except Exception as e:  # noqa
+        ctx.violate('scale', f'the same system with every length multiplied by 2^{k} (cutoff {c2["cutoff"]!r}): neighbor '
+                    f'list construction raised {type(e).__name__}: {e} [{kind}]', _payload(c2))
+        return False
+    ctx.extra['scaled_cases'] = ctx.extra.get('scaled_cases', 0) + 1
+    if r2 != rows:
+        bad = clauses(c2, r2, [len(r) for r in r2])
+        what = bad[0][1] if bad else f'lists {r2} instead of {rows}'
+        ctx.violate('scale', f'every length multiplied by 2^{k} (an exact operation on this dyadic-grid system, cutoff '
+                    f'{c2["cutoff"]!r}) changes the neighbor lists: {what} [{kind}; natoms={len(rows)}, pbc={case["pbc"]}]',
+                    _payload(c2))
+        return False
+    return True
 
 
 def _dmag_crosscheck(ctx, case, system, rows, cls):
@@ -2602,7 +3564,8 @@ def _search(ctx, broken):
             ('hunt', gen_hunt, ctx.n(4000, 60000) * mult), ('general', gen_general, ctx.n(250, 8000) * mult),
             ('grid', gen_grid, ctx.n(250, 8000) * mult), ('edges', gen_edges, ctx.n(100, 3000) * mult),
             ('fine', gen_fine, ctx.n(500, 12000) * mult), ('nearcut', gen_nearcut, ctx.n(400, 10000) * mult),
-            ('crystal', gen_crystal, ctx.n(60, 1000) * mult), ('narrowbin', gen_narrowbin, ctx.n(300, 6000) * mult)]
+            ('crystal', gen_crystal, ctx.n(60, 1000) * mult), ('narrowbin', gen_narrowbin, ctx.n(300, 6000) * mult),
+            ('bigcut', gen_bigcut, ctx.n(500, 10000) * mult), ('elongated', gen_elongated, ctx.n(150, 3000) * mult)]
     with tempfile.TemporaryDirectory(prefix='c03_') as tmpdir:
         import time
         ph = ctx.extra.setdefault('phase_seconds', {})
@@ -2617,6 +3580,23 @@ def _search(ctx, broken):
                     return
             ph['oracle:' + kind] = round(time.time() - t0, 1)
             _checkpoint(ctx)
+        t0 = time.time()
+        for it in range(ctx.n(3, 24) * (2 if broken else 1)):
+            case = gen_chain(rng, it) if not ctx.thorough or it % 4 else gen_chain(rng, it, nmin=5000, nmax=20000)
+            _trace(_payload(case, stage='crash'))
+            _search_chain(ctx, case, 'chain', tmpdir, it)
+            if len(ctx.violations) >= 6:
+                return
+        if ctx.thorough or broken:
+            # bin indices beyond 2^13 .. 2^16 along one axis (few atoms)
+            for it in range(ctx.n(12, 120)):
+                case = gen_elongated(rng, it, nmin=5000, nmax=70000)
+                _trace(_payload(case, stage='crash'))
+                _search_case(ctx, case, 'elongated', 'elongated-long', full=True, tmpdir=None)
+                if len(ctx.violations) >= 6:
+                    return
+        ph['oracle:chain'] = round(time.time() - t0, 1)
+        _checkpoint(ctx)
         t0 = time.time()
         for it in range(ctx.n(150, 3000) * mult):
             run_sequence(ctx, rng, it, 'oracle', tmpdir, trace=_trace)
@@ -2675,6 +3655,10 @@ def _replay(ctx, payload):
         with tempfile.TemporaryDirectory(prefix='c03_') as tmpdir:
             check_large_rows(ctx, r['n'], r['rows'], tmpdir)
         return
+    if r.get('op') == 'ball':
+        with tempfile.TemporaryDirectory(prefix='c03_') as tmpdir:
+            check_ball(ctx, r['seed'], r['nball'], r['pbc'], r['init'], r['delta'], tmpdir)
+        return
     if r.get('op') == 'lattice':
         with tempfile.TemporaryDirectory(prefix='c03_') as tmpdir:
             check_lattice(ctx, r['m'], r['pbc'], r['init'], r['delta'], tmpdir)
@@ -2691,11 +3675,17 @@ def _replay(ctx, payload):
     nl = _build(case, system, case.get('init') or 20, case.get('delta') or 10, 0)
     rows = _rows(nl)
     coord = [int(c) for c in nl.coord]
-    print('replay natoms', len(rows), 'rows', rows, 'coord', coord)
-    cls = exact_classes(case)
-    print('pairs below cutoff (exact):', [k for k, v in cls.items() if v == 'in'])
-    for key, what in clauses(case, rows, coord, cls):
-        ctx.violate(key, what, _payload(case))
+    if len(rows) > 400:
+        sp = exact_neighbors_sparse(case)
+        print('replay natoms', len(rows), 'pairs below cutoff (exact):', len(sp[0]), 'listed pairs:', sum(coord) // 2)
+        for key, what in clauses_sparse(case, rows, coord, sp):
+            ctx.violate(key, what, _payload(case))
+    else:
+        print('replay natoms', len(rows), 'rows', rows, 'coord', coord)
+        cls = exact_classes(case)
+        print('pairs below cutoff (exact):', [k for k, v in cls.items() if v == 'in'])
+        for key, what in clauses(case, rows, coord, cls):
+            ctx.violate(key, what, _payload(case))
     bad = _object_clauses(nl, rows, coord)
     if bad:
         ctx.violate('object', bad, _payload(case))
@@ -2705,7 +3695,12 @@ def _replay(ctx, payload):
             ctx.violate('storage', f'result depends on the storage sizes: {rows} vs {_rows(nl2)}', r)
     if r.get('stage') == 'roundtrip':
         with tempfile.TemporaryDirectory(prefix='c03_') as tmpdir:
-            _roundtrip_real(ctx, case, nl, rows, tmpdir, 'replay', {'path': 0, 'content': 1, 'file': 2}.get(r.get('how'), 0))
+            _roundtrip_real(ctx, case, nl, rows, tmpdir, 'replay',
+                            r['it'] if 'it' in r else {'path': 0, 'content': 1, 'file': 2}.get(r.get('how'), 0))
+    if 'form' in r:
+        rows3 = _rows(_build(case, system, case.get('init') or 20, case.get('delta') or 10, 0, r['form']))
+        if rows3 != rows:
+            ctx.violate('forms', f'result depends on the type of the arguments ({FORMS[r["form"]]}): {rows3} vs {rows}', r)
     if ctx.driver is not None:
         out = ctx.driver.ask(_line(case, case.get('init') or 20, case.get('delta') or 10))
         print('model:', out[:400])
